@@ -495,7 +495,9 @@ var neutralKids = map[sort_][]string{
 	sT: {"Int | String", "Int?", "~Int", "Foo[Int]"},
 }
 
-func bare(t *tmpl) *node { return &node{t: t, kids: make([]*node, len(t.holes)), par: make([]bool, len(t.holes))} }
+func bare(t *tmpl) *node {
+	return &node{t: t, kids: make([]*node, len(t.holes)), par: make([]bool, len(t.holes))}
+}
 
 // failing counts the texts (programs of sort s) whose round trip is broken.
 func (x *explorer) failing(s sort_, texts []string) int {
